@@ -166,6 +166,7 @@ impl Bus {
         self.cpu_reset();
         self.input_reg = [0; 4];
         self.int_timer.reset();
+        self.board.master_reset();
     }
 
     /// Fill the ram with zeros.
